@@ -444,6 +444,8 @@ class IndexInterp:
         if plain and nm in ("int", "float", "abs") and len(args) == 1 and isinstance(args[0], (int, float)):
             return {"int": int, "float": float, "abs": abs}[nm](args[0])
         if nm in ("zeros", "empty", "zeros_like", "empty_like") and not isinstance(e.func, ast.Name):
+            if nm in ("zeros", "empty") and args and args[0] is None:
+                raise AnalysisError("the index program raises: TypeError `%s` with shape None" % src(e)[:40])
             shape = args[0] if args else None
             if isinstance(shape, list):
                 shape = tuple(shape)
